@@ -11,6 +11,8 @@ import (
 	"errors"
 	"fmt"
 	"net"
+	"os"
+	"path/filepath"
 	"regexp"
 	"strconv"
 	"strings"
@@ -50,7 +52,7 @@ type client struct {
 var errIO = errors.New("connection lost")
 
 func dial(addr string) (*client, reply, error) {
-	c, err := net.DialTimeout("tcp", addr, 20*time.Second)
+	c, err := net.DialTimeout("unix", addr, 20*time.Second)
 	if err != nil {
 		return nil, reply{}, err
 	}
@@ -261,14 +263,13 @@ func newRig(kind string, deferReject, withMilter bool) (*wireRig, error) {
 	cfg += "destination reject-full.example {\n  reject 451 4.7.1 \"Come back later\"\n}\n"
 	cfg += "default_destination {\n  deliver_to &" + tgt.InstName + "\n}\n"
 
-	// a free port: the endpoint wants an address, not a listener
-	l, err := net.Listen("tcp", "127.0.0.1:0")
-	if err != nil {
-		return nil, err
-	}
-	w.addr = l.Addr().String()
-	l.Close()
-	endp, err := smtpendp.New(kind, []string{"tcp://" + w.addr})
+	// The endpoint wants an address, not a listener, and does not tell which
+	// port it got for ":0". Picking a free TCP port first and letting the
+	// endpoint bind it later loses the port to other processes on a loaded
+	// machine, so the endpoint listens on a unix socket inside TMPDIR.
+	w.addr = filepath.Join(os.TempDir(), fmt.Sprintf("c16-%d-%d.sock", os.Getpid(), rigSeq))
+	os.Remove(w.addr)
+	endp, err := smtpendp.New(kind, []string{"unix://" + w.addr})
 	if err != nil {
 		return nil, err
 	}
@@ -298,6 +299,7 @@ func (w *wireRig) close() {
 		case <-time.After(30 * time.Second):
 		}
 	}
+	os.Remove(w.addr)
 }
 
 // ---------------------------------------------------------------- the wire cases
@@ -339,10 +341,23 @@ func runWireCase(t *testing.T, r *rep.Reporter, c *rep.Case, ci int) {
 	}
 	deferReject := p.Chance(1, 3)
 	verifkit.ResetSMTPErrorObservations()
+	resetInjected()
 	withMilter := p.Chance(1, 4)
-	rig, err := newRig(kind, deferReject, withMilter)
+	var rig *wireRig
+	var err error
+	for try := 0; try < 5; try++ {
+		if rig, err = newRig(kind, deferReject, withMilter); err == nil {
+			break
+		}
+		time.Sleep(50 * time.Millisecond)
+	}
 	if err != nil {
-		t.Fatalf("harness: cannot build the endpoint: %v", err)
+		// environment (e.g. no ephemeral port for the milter listener on a loaded
+		// machine), not a verdict; a systematic failure leaves wire_replies below
+		// min_observed and the whole run inconclusive
+		c.Inconclusive("cannot build the endpoint: " + err.Error())
+		c.Done("no-endpoint", false)
+		return
 	}
 	defer rig.close()
 
